@@ -32,6 +32,7 @@ func c08Values(typ string, thorough bool) []c08Val {
 	case "int":
 		return []c08Val{
 			{int64(0), true, "0", ""}, {int64(1), true, "1", ""}, {int64(math.MaxInt32), true, "2147483647", "max int32"},
+			{int64(10), true, "010", "decimal literal with a leading zero"}, {int64(89), true, "089", "decimal literal with a leading zero (not octal)"},
 			{int64(-1), true, "", ""}, {int64(math.MinInt32), true, "", "min int32"},
 			{int64(math.MaxInt32) + 1, false, "2147483648", "2^31"}, {int64(math.MinInt32) - 1, false, "", "-2^31-1"},
 			{int64(math.MaxInt64), false, "9223372036854775807", "max int64 into INT"},
@@ -42,6 +43,7 @@ func c08Values(typ string, thorough bool) []c08Val {
 	case "bigint":
 		return []c08Val{
 			{int64(0), true, "0", ""}, {int64(math.MaxInt64), true, "9223372036854775807", "max int64"}, {int64(math.MinInt64), true, "", "min int64"},
+			{int64(100), true, "0100", "decimal literal with a leading zero"},
 			{int64(-1), true, "", ""}, {int64(1) << 40, true, "1099511627776", "2^40"},
 			{nil, true, "", "NULL"},
 			{"7", false, "'7'", "string into BIGINT"}, {false, false, "false", "bool into BIGINT"}, {uint64(9), false, "", "Go uint64"},
